@@ -600,7 +600,7 @@ sadump_read_page(struct page_io *pio)
 	}
 
 	disknum = 0;
-	pos = rgn->pos;
+	pos = rgn->pos + (pfn - rgn->pfn) * get_page_size(ctx);
 	while (pos >= sp->ext[disknum].data_len) {
 		pos -= sp->ext[disknum].data_len;
 		if (++disknum >= sp->num_files)
